@@ -1453,6 +1453,7 @@ static Cells genElem(Rng& g, const std::string& ty, const std::string& purpose) 
   if (ty == "pod") return {pickInt(g, -128, 127), pickInt(g, -P53, P53), pickInt(g, -32768, 32767)};
   if (ty == "fv3" && purpose == "aff") return {(cell)g.below(1009), (cell)g.below(1009), pickInt(g, -(INT_MAX / 8), INT_MAX / 8)};
   if (ty == "int" && purpose == "small") return {(cell)g.range(-9, 99)};
+  if (ty == "int" && purpose == "smallnn") return {(cell)g.range(0, 99)};  // xor: operands are non-negative
   if (ty == "int") return {intLike(INT_MIN, INT_MAX, INT_MAX / 8, 6)};
   if (ty == "long") return {intLike(LONG_MIN, LONG_MAX, LONG_MAX / 8, 256)};
   if (ty == "double") return {intLike(-P53, P53, P53 / 16, 100)};
@@ -1496,6 +1497,9 @@ static Cells genElems(Rng& g, const std::string& ty, int n, const std::string& p
   return c;
 }
 static int genLen(Rng& g) { static const int L[] = {0, 1, 1, 2, 2, 3, 4, 5}; return L[g.below(8)]; }
+
+// long reductions cost the Lean driver about a second each: a budget per run (set from --cases in gen())
+static long g_longLeft = -1;
 
 static std::string genColl(Rng& g, int P) {
   Case k;
@@ -1546,9 +1550,13 @@ static std::string genColl(Rng& g, int P) {
     // long arrays for user functors (everything that is not a predefined MPI_Op): MPI switches to other reduction
     // algorithms (ring, segmented) beyond ~10 kB, where operand order and bracketing differ from the short case
     bool userOp = !(namedFn && (intr || (light && k.ty != "llong")));
-    if (userOp && world && P >= 2 && (form == "ip" || form == "io") && g.coin(1, forceNc ? 3 : 8)) {
-      k.n = (int)g.range(2600, 5200) / (k.ty == "fv3" ? 3 : (k.ty == "pair" ? 2 : 1));
-      if (k.ty == "int" && fn != "sum" && fn != "prod") purpose = "small";
+    if (userOp && world && P >= 2 && (form == "ip" || form == "io") && g_longLeft > 0 && g.coin(1, forceNc ? 3 : 8)) {
+      --g_longLeft;
+      // just beyond 10 kB per contribution (Open MPI's switch from recursive doubling to the ring algorithm)
+      // (MPI counts the bytes of the typemap, not the extent: 5 for pair<int,char>, 9 for pair<long long,char>)
+      int bytes = k.ty == "fv3" || k.ty == "big96" ? 12 : (k.ty == "pair" ? 5 : (k.ty == "llong" ? 8 : (k.ty == "pairlc" ? 9 : (k.ty == "big40" ? 6 : 4))));
+      k.n = 10400 / bytes + (int)g.range(0, 300);
+      if (k.ty == "int" && fn != "sum" && fn != "prod") purpose = fn == "xor" ? "smallnn" : "small";  // short op lines
     }
     // related contributions now and then: all equal, or one rank differs
     Cells common = genElems(g, k.ty, k.n, purpose);
@@ -1682,6 +1690,7 @@ static std::string gen(Rng& g, long i, const Args& a) {
   MPI_Comm_size(MPI_COMM_WORLD, &P);
   static const std::vector<std::string> TM = {"int", "long", "double", "char", "complex", "fv3", "big96", "pair", "pli", "ip",
                                               "uchar", "short", "ushort", "uint", "ulong", "float", "ldouble", "cfloat", "cldouble", "llong", "pod", "pairlc", "ppair", "fvp", "big40"};
+  if (g_longLeft < 0) g_longLeft = 10 + a.cases / 300;
   if (i < (long)TM.size()) return tmapLine(TM[i], 1 + (int)(i % 3));
   if (i == (long)TM.size()) return "misc np=" + std::to_string(P);
   int w = (int)g.below(100);
